@@ -1,4 +1,5 @@
 import IslaVerif.Proofs.Targets
+import IslaVerif.Proofs.C10
 /-
 C14 — solver helpers that build trees to a target meet that target.
 
@@ -21,6 +22,19 @@ theorem fixedLenCheck_sound (g : Grammar) (start : String) (n : Nat) (r : DTree)
 theorem numericCheck_sound (g : Grammar) (nt : String) (v : Int) (r : DTree) (h : numericCheck g nt v r = true) :
     r.valid g = true ∧ r.closed = true ∧ r.sym = nt ∧ intOfChars (r.yieldC g) = some v :=
   numericCheck_sound' g nt v r h
+
+/-- an accepted fixed-length result witnesses that the nonterminal's language contains a word of
+exactly the requested length -/
+theorem fixedLenCheck_inLang (g : Grammar) (start : String) (n : Nat) (r : DTree)
+    (h : fixedLenCheck g start n r = true) : ∃ w, C10.InLang g start w ∧ w.length = n := by
+  obtain ⟨h1, h2, h3, h4⟩ := fixedLenCheck_sound g start n r h
+  exact ⟨r.yieldC g, ⟨r, h1, h2, h3, rfl⟩, h4⟩
+
+/-- an accepted numeric value witnesses a numeral for `v` in the nonterminal's language -/
+theorem numericCheck_inLang (g : Grammar) (nt : String) (v : Int) (r : DTree)
+    (h : numericCheck g nt v r = true) : ∃ w, C10.InLang g nt w ∧ intOfChars w = some v := by
+  obtain ⟨h1, h2, h3, h4⟩ := numericCheck_sound g nt v r h
+  exact ⟨r.yieldC g, ⟨r, h1, h2, h3, rfl⟩, h4⟩
 
 /-- on plain digit strings the numeral value is the positional value -/
 theorem intOfChars_digits (ds : List Char) (h1 : ds ≠ []) (h2 : ds.all Char.isDigit = true) :
